@@ -25,9 +25,11 @@ import (
 	"net/url"
 	"os"
 	"path/filepath"
+	"runtime"
 	"sort"
 	"strings"
 	"sync"
+	"sync/atomic"
 	"time"
 
 	"github.com/apache/arrow-go/v18/arrow"
@@ -197,7 +199,11 @@ func uploadArm(st uploader, seq, goroutines, perG int) (errs map[string]int) {
 	// concurrent phase: perG rounds; in each round all goroutines are released
 	// together and call Upload once (the key is generated at the start of Upload)
 	for round := 0; round < perG; round++ {
-		start := make(chan struct{})
+		// Spin barrier rather than a channel close: waking parked goroutines
+		// spreads them over many microseconds, spinning ones leave within a
+		// few hundred nanoseconds of each other (the interesting window for a
+		// clock-derived key is one microsecond).
+		var start atomic.Uint32
 		var wg, ready sync.WaitGroup
 		for g := 0; g < goroutines; g++ {
 			wg.Add(1)
@@ -205,13 +211,17 @@ func uploadArm(st uploader, seq, goroutines, perG int) (errs map[string]int) {
 			go func(g int) {
 				defer wg.Done()
 				ready.Done()
-				<-start
+				for n := 0; start.Load() == 0; n++ {
+					if n%2000 == 1999 {
+						runtime.Gosched()
+					}
+				}
 				_, err := st.Upload(payload, schema, []string{"", "zstd"}[(g+round)%2])
 				note(err)
 			}(g)
 		}
 		ready.Wait()
-		close(start)
+		start.Store(1)
 		wg.Wait()
 	}
 	return errs
@@ -386,7 +396,7 @@ func main() {
 	t0 = time.Now()
 	// the GCS client is ~10x slower per upload (multipart insert + failing
 	// SignedURL); its key is a crypto/rand UUID, so fewer uploads suffice
-	seq, G, perG = r.N(100, 1000), r.N(16, 32), r.N(25, 200)
+	seq, G, perG = r.N(100, 1000), r.N(16, 32), r.N(60, 300)
 	gerrs := uploadArm(gst, seq, G, perG)
 	gkeys := fg.take()
 	r.Set("gcs_upload_errors", gerrs)
